@@ -20,6 +20,7 @@ BOUNDS = {"quick": {"depth": 2, "max_vars": 3}, "thorough": {"depth": 3, "max_va
 ITEM_LIMIT = {"quick": 900, "thorough": 3600}
 
 VARS = {"x": 1, "y": 2, "t": 1, "u": 3}
+VARS2 = {"x": 2, "y": 1, "t": 3, "u": 1}
 ROWS = [0, -1, ("s", 1, None, None), ("s", None, 2, None), ("s", None, None, 2)]
 
 
@@ -400,6 +401,13 @@ def space_algebra(res, on_v):
             n += 1
             if (A == B) != (a == b):
                 on_v("C12|space|eq", "Space(%s) == Space(%s) is %s" % (a, b, A == B), None, [])
+            # products merge equal names by adding their dimensions, in order (second factor with other dims)
+            B2 = Space({v: VARS2[v] for v in b})
+            Pm = A * B2
+            expm = [(v, VARS[v] + (VARS2[v] if v in b else 0)) for v in a] + [(v, VARS2[v]) for v in b if v not in a]
+            if list(Pm.items()) != expm or Pm.dim != A.dim + B2.dim:
+                on_v("C12|space|product-merge", "Space(%s)*Space(%s with dims %s) = %s (dim %s), expected %s" % (
+                    a, b, [VARS2[v] for v in b], list(Pm.items()), Pm.dim, expm), None, [])
             if set(a).isdisjoint(b):
                 Pr = A * B
                 if list(Pr.items()) != [(v, VARS[v]) for v in a + b]:
